@@ -850,10 +850,11 @@ def Adj.addEdge (a : Adj) (src dst eid : Nat) : Adj :=
   { a with lists := alPut a.lists src (((alGet a.lists src).getD {}).addEdge (dst, eid)),
            edgeCount := a.edgeCount + 1 }
 
+/-- `ChunkedAdjacency::mark_deleted`: since 7783d93 the tombstone is recorded even when `src` has no
+list yet (`entry().or_insert_with`), so an insertion that arrives later stays invisible. -/
 def Adj.markDeleted (a : Adj) (src eid : Nat) : Adj :=
-  match alGet a.lists src with
-  | none => a
-  | some l => { a with lists := alPut a.lists src (l.markDeleted eid), deletedCount := a.deletedCount + 1 }
+  { a with lists := alPut a.lists src (((alGet a.lists src).getD {}).markDeleted eid),
+           deletedCount := a.deletedCount + 1 }
 
 def Adj.compact (a : Adj) : Adj :=
   { a with lists := a.lists.map (fun kl => (kl.1, kl.2.compact a.cap)) }
